@@ -2,8 +2,10 @@ package main
 
 import (
 	"fmt"
+	"strings"
 
 	"github.com/hack-pad/hackpadfs"
+	"github.com/hack-pad/hackpadfs/keyvalue"
 	"github.com/hack-pad/hackpadfs/mount"
 )
 
@@ -49,6 +51,105 @@ func init() {
 			}
 			return sub, done
 		})
+		runErrFaults(r, n/2)
+	}
+}
+
+// runErrFaults: the key-value FS over a store that fails one call (both transaction paths, as in C14): whatever an
+// operation then reports must still be typed -- a *PathError naming the caller's path (for ReadDir, ReadFile, WriteFile,
+// MkdirAll and RemoveAll possibly a descendant or an ancestor of it), a *LinkError naming both names of a Rename (or,
+// when moving a descendant of a directory failed, both extended by the same relative path), and io.EOF or a
+// *PathError for operations on a handle.
+func runErrFaults(r *Rng, n int) {
+	related := func(p, q string) bool {
+		return p == q || q == "." || p == "." || strings.HasPrefix(p, q+"/") || strings.HasPrefix(q, p+"/")
+	}
+	for hidx := 0; hidx < n; hidx++ {
+		ops := genFaultHistory(r)
+		useTxn := hidx%2 == 1
+		kindName := map[bool]string{false: "plain", true: "txn"}[useTxn]
+		mk := func() (hackpadfs.FS, *plainStore) {
+			ps := newPlainStore()
+			var st keyvalue.Store = ps
+			if useTxn {
+				st = &txnStore{plainStore: ps}
+			}
+			fs, err := keyvalue.NewFS(st)
+			if err != nil {
+				panic(err)
+			}
+			ps.calls = 0
+			return fs, ps
+		}
+		fs0, ps0 := mk()
+		w0 := &World{FS: fs0}
+		var live []Op
+		for _, o := range ops {
+			if len(o.Kind) > 2 && o.Kind[:2] == "h:" && o.H >= len(w0.Handles) {
+				continue
+			}
+			w0.Apply(o)
+			live = append(live, o)
+		}
+		w0.CloseAll()
+		total := ps0.calls
+		c := &Case{ID: c05NextID, Kind: "faults/" + kindName, Trivial: true}
+		c05NextID++
+		cells := map[string]bool{}
+		// every fault index of short histories, a sample of long ones
+		stride := 1 + total/40
+		for fault := r.Intn(stride); fault < total; fault += stride {
+			fs, ps := mk()
+			ps.failAt = fault
+			ps.tracing = true
+			w := &World{FS: fs}
+			for i, o := range live {
+				a := w.Apply(o)
+				if a.Kind == "panic" {
+					break // C14's business
+				}
+				if a.Kind != "err" {
+					continue
+				}
+				e := a.Err
+				bad := ""
+				switch {
+				case len(o.Kind) > 2 && o.Kind[:2] == "h:":
+					if e.Kind != "P" && !(e.Kind == "B" && e.Cls == "EEOF") {
+						bad = "the error of a handle operation is neither io.EOF nor a *PathError"
+					}
+				case o.Kind == "rename":
+					switch {
+					case e.Kind != "L":
+						bad = "the error of Rename is not a *LinkError"
+					case e.Old == o.P && e.New == o.Q:
+					case strings.HasPrefix(e.Old, o.P+"/") && strings.HasPrefix(e.New, o.Q+"/") && e.Old[len(o.P):] == e.New[len(o.Q):]:
+					default:
+						bad = "the *LinkError does not name the caller's names"
+					}
+				default:
+					exact := !(o.Kind == "readdir" || o.Kind == "readfile" || o.Kind == "writefile" || o.Kind == "mkdirall" || o.Kind == "removeall")
+					switch {
+					case e.Kind != "P":
+						bad = "the error is not a *PathError"
+					case e.Path == "":
+						bad = "the *PathError has an empty path"
+					case exact && e.Path != o.P, !exact && !related(e.Path, o.P):
+						bad = "the *PathError does not name the caller's path"
+					}
+				}
+				cells["faults/"+o.Kind] = true
+				if bad != "" {
+					c.fail(fmt.Sprintf("faults:[%s store] store call %d (%s) fails; step %d (%s) -> %s: %s", kindName, fault, ps.traceAt(fault), i, o, a, bad), "faults:"+o.Kind+":type:"+e.Kind)
+				}
+			}
+			w.CloseAll()
+		}
+		c.Text = []string{fmt.Sprintf("[%s store] %d operations, %d store calls, every %d-th call failed in turn", kindName, len(live), total, stride)}
+		for k := range cells {
+			c.Cells = append(c.Cells, k)
+		}
+		emit(c)
 	}
 }
 
